@@ -80,6 +80,7 @@ def make_content_gen(model_domain):
     def gen(c, tag="T"):
         nlines = c.choose("nlines", [1, 2, 3, 4, 5, 8])
         define_pos = c.choose("define_pos", ["before", "after", "both"])
+        dup = c.choose("repeat_line_verbatim", [None, "first-at-end", "first-twice"])
         lines = []
         used = set()
         for i in range(nlines):
@@ -93,6 +94,8 @@ def make_content_gen(model_domain):
                 used.update(w.lstrip("-") for w in params if w.lstrip("-")[:2] in ("dv", "ev") and w.endswith(tag))
             ds = [DAUGHTERS[(i + k) % len(DAUGHTERS)] for k in range(nd)]
             lines.append([f"0.{i+1}{nd}", ds, ph, model, params])
+        if dup:
+            lines = lines + [list(lines[0])] * (1 if dup == "first-at-end" else 2)
         ast = []
         defs = [["Define", n, "0.507e12" if n.startswith("ev") else "-1.5"] for n in sorted(used)]
         if define_pos in ("before", "both"):
